@@ -110,7 +110,7 @@ SeqSet(s) == {s[i] : i \in DOMAIN s}
 TBuild ==
   /\ Ev("build")
   /\ IF T.builderr # ""
-       THEN /\ diag' = (IF T.builderr \notin {"no-txs", "too-early"} THEN {"build-failed"} ELSE {})
+       THEN /\ diag' = (IF T.builderr \notin {"no-txs", "too-early"} /\ ~(T.fault /\ T.builderr = "read-error") THEN {"build-failed"} ELSE {})
             /\ UNCHANGED st
        ELSE LET exp == RunBlock(st, T.hdr, T.txs, T.prices, R)
                 om  == IF exp.valid THEN ExpOverMax(exp, T.txs) ELSE {}
